@@ -369,6 +369,8 @@ def rule_r5(p, res):
     d2 = Defs(g.node)
     for rs in [n for n in walk_own(g.node) if isinstance(n, ast.Raise) and isinstance(n.exc, ast.Call)]:
         a = rs.exc.args[0] if rs.exc.args else None
+        if isinstance(a, ast.Name) and d2.single(a.id) is not None:
+            a = d2.single(a.id)
         ok = isinstance(a, ast.Call) and (dotted(a.func) or "") in ("np.hstack", "np.concatenate", "numpy.hstack", "numpy.concatenate")
         r.check(ok, g, rs, "batched containment error must concatenate the per-batch masks in order")
     # Transform.apply: closure and fallback call the same function with the same arguments
